@@ -42,6 +42,7 @@ package bed
 //@             (splitN(line, 9) > 11 && splitF(line, 9, 11) != "" ==> forall k int :: 0 <= k && k < splitN(splitF(line, 9, 11), ',') ==> atoiOK(splitF(splitF(line, 9, 11), ',', k))) &&
 //@             ((splitN(line, 9) > 10 && splitF(line, 9, 10) != "") ? splitN(splitF(line, 9, 10), ',') : 0) == bcL && ((splitN(line, 9) > 11 && splitF(line, 9, 11) != "") ? splitN(splitF(line, 9, 11), ',') : 0) == bcL
 //@   ensures @C04 first && !active0 && okL ==> result.1 == nil
+//@   ensures-view line @C04 first && !active0 && bedOK(line, n0) ==> result.1 == nil
 //@   ensures @C04 n0 != 0 ==> r.n == n0
 //@   ensures @C04 result.1 == nil ==> r.n == splitN(line, 9)
 //@   let B := result.0
@@ -70,27 +71,59 @@ package bed
 //@   ensures @C04 result.1 == nil && n > 11 && splitF(line, 9, 11) != "" ==> len(B.BlockStarts) == splitN(splitF(line, 9, 11), ',') &&
 //@             forall k int :: 0 <= k && k < len(B.BlockStarts) ==> atoiOK(splitF(splitF(line, 9, 11), ',', k)) && B.BlockStarts[k] == atoi(splitF(splitF(line, 9, 11), ',', k))
 //@   ensures @C04 result.1 == nil && !(n > 11 && splitF(line, 9, 11) != "") ==> len(B.BlockStarts) == 0
+// the same, folded (specs/27bed.spec): what Reader's trace says about an item
+//@   ensures-view line @C04 result.1 == nil ==> bedRec(B.N, B.Chrom, B.ChromStart, B.ChromEnd, B.Name, B.Score, B.Strand, B.ThickStart, B.ThickEnd, B.ItemRGB, B.BlockCount, rawarr(B.BlockSizes), offset(B.BlockSizes), len(B.BlockSizes), rawarr(B.BlockStarts), offset(B.BlockStarts), len(B.BlockStarts), line)
+// line level (C04, C06): when the stream stands at the start of line k0 and does not fail, read skips the blank and comment
+// lines from k0 on, parses the first other line k1 = bnx(k0) - its text is the line witness - and leaves the stream at the
+// start of line k1 + 1; when no such line is left it reports io.EOF
+//@   let IN := S.in
+//@   let E := S.end
+//@   let k0 := lnAt(IN, E, p0)
+//@   let atLine := !S.fault && 0 <= k0 && k0 <= lnN(IN, E) && p0 == lnS(IN, E, k0)
+//@   ensures-view line @C04 atLine && bnx(IN, E, k0) == lnN(IN, E) ==> result.1 == 1
+//@   ensures-view line @C04 atLine && bnx(IN, E, k0) < lnN(IN, E) ==> result.1 != 1 && line == lnStr(IN, E, bnx(IN, E, k0)) && S.pos == lnS(IN, E, bnx(IN, E, k0) + 1)
+//@   ensures-view line @C04 atLine && bnx(IN, E, k0) < lnN(IN, E) && bedOK(line, n0) ==> result.1 == nil
 //@   loop 1
 //@     invariant r != nil
 //@     invariant p0 <= r.r.pos && r.r.pos <= S.end
+//@     invariant @C04 atLine ==> k0 + IT <= lnN(IN, E) && r.r.pos == lnS(IN, E, k0 + IT)
+//@     invariant @C04 atLine && k0 + IT < lnN(IN, E) ==> lnS(IN, E, k0 + IT) <= lnT(IN, E, k0 + IT)
+//@     invariant @C04 atLine ==> forall j int :: {lnS(IN, E, j)} k0 <= j && j < k0 + IT ==> bskip(IN, E, j)
 //@     invariant r.r.fired == old(r.r.fired)
 //@     invariant r.n == n0
 //@     invariant r.r.pos == p0 || !first
 //@     decreases S.end - r.r.pos
 
 //@ func Reader
-//@   props C06 C07 C18
+//@   props C04 C06 C07 C18
+//@   use-view line
 //@   yields Y
 //@   witness rd
 //@   ensures !stopped && rd.r.fault ==> len(Y) > 0 && Y[len(Y)-1].1 != nil
 //@   ensures forall t int :: 0 <= t && t < len(Y) && Y[t].1 != nil ==> t == len(Y)-1
 //@   ensures forall t int :: 0 <= t && t < len(Y) ==> (Y[t].1 != nil <==> Y[t].0 == nil)
 //@   ensures forall t int :: 0 <= t && t < len(Y) ==> Y[t].1 != 1
+// content (C04), for a reader that does not fail, over the lines of the stream (ScanLines split, specs/27bed.spec): the
+// t-th read starts at line bst(t) (bst(0) = 0, bst(t+1) = the line after the record of read t), skips blank and comment
+// lines, and item t is the parse (bedRec) of the first other line bnx(bst(t)); an unstopped run without an error item ends when
+// no record line is left
+//@   ensures rd.r.id == r.id
+//@   let IN := rd.r.in
+//@   let E := rd.r.end
+//@   ensures @C04 forall t int :: {Y[t].1} !rd.r.fault && 0 <= t && t < len(Y) && Y[t].1 == nil ==> bnx(IN, E, bst(IN, E, t)) < lnN(IN, E) && bedRec(Y[t].0.N, Y[t].0.Chrom, Y[t].0.ChromStart, Y[t].0.ChromEnd, Y[t].0.Name, Y[t].0.Score, Y[t].0.Strand, Y[t].0.ThickStart, Y[t].0.ThickEnd, Y[t].0.ItemRGB, Y[t].0.BlockCount, rawarr(Y[t].0.BlockSizes), offset(Y[t].0.BlockSizes), len(Y[t].0.BlockSizes), rawarr(Y[t].0.BlockStarts), offset(Y[t].0.BlockStarts), len(Y[t].0.BlockStarts), lnStr(IN, E, bnx(IN, E, bst(IN, E, t))))
+//@   ensures @C04 !stopped && !rd.r.fault && (len(Y) == 0 || Y[len(Y)-1].1 == nil) ==> bnx(IN, E, bst(IN, E, len(Y))) == lnN(IN, E)
+// an error item (of a reader that does not fail) stands for a record line that is not acceptable (bedOK: the folded completeness
+// condition; its second argument is the number of fields the first record fixed)
+//@   ensures @C04 forall t int :: {Y[t].1} !rd.r.fault && 0 <= t && t < len(Y) && Y[t].1 != nil ==> bnx(IN, E, bst(IN, E, t)) < lnN(IN, E) && !bedOK(lnStr(IN, E, bnx(IN, E, bst(IN, E, t))), t == 0 ? 0 : Y[0].0.N)
 //@   loop 1
 //@     invariant rd != nil
 //@     invariant forall t int :: 0 <= t && t < len(Y) ==> Y[t].1 == nil && Y[t].0 != nil
 //@     invariant rd.r.pos <= rd.r.end && !rd.r.fired
+//@     invariant @C04 !rd.r.fault ==> rd.n == (IT == 0 ? 0 : Y[0].0.N)
+//@     invariant @C04 !rd.r.fault ==> len(Y) == IT && mark(IT) && 0 <= bst(IN, E, IT) && bst(IN, E, IT) <= lnN(IN, E) && rd.r.pos == lnS(IN, E, bst(IN, E, IT))
+//@     invariant @C04 forall t int :: {Y[t].1} !rd.r.fault && 0 <= t && t < len(Y) ==> Y[t].1 == nil && bnx(IN, E, bst(IN, E, t)) < lnN(IN, E) && bedRec(Y[t].0.N, Y[t].0.Chrom, Y[t].0.ChromStart, Y[t].0.ChromEnd, Y[t].0.Name, Y[t].0.Score, Y[t].0.Strand, Y[t].0.ThickStart, Y[t].0.ThickEnd, Y[t].0.ItemRGB, Y[t].0.BlockCount, rawarr(Y[t].0.BlockSizes), offset(Y[t].0.BlockSizes), len(Y[t].0.BlockSizes), rawarr(Y[t].0.BlockStarts), offset(Y[t].0.BlockStarts), len(Y[t].0.BlockStarts), lnStr(IN, E, bnx(IN, E, bst(IN, E, t))))
 //@     decreases rd.r.end - rd.r.pos
+//@     splitvar t == IT - 1
 
 //@ func File
 //@   props C06 C18
